@@ -7,7 +7,8 @@ PROP = "C56"
 LEAN_MODULES = ["LunaVerif.Props.C56", "LunaVerif.Props.C56Stream", "LunaVerif.Props.C56Spi",
                 "LunaVerif.Lemmas.C56StreamAny", "LunaVerif.Props.C56Uart", "LunaVerif.Props.C56Cdc",
                 "LunaVerif.Props.C56SpiBits", "LunaVerif.Lemmas.C56UartRank", "LunaVerif.Props.C56UartLive",
-                "LunaVerif.Props.C56UartMulti", "LunaVerif.Props.C56SpiProgress", "LunaVerif.Props.C56StreamLive"]
+                "LunaVerif.Props.C56UartMulti", "LunaVerif.Props.C56SpiProgress", "LunaVerif.Props.C56StreamLive",
+                "LunaVerif.Props.C56UartChain"]
 DRIVER = "Driver/C56.lean"
 REQUIRED_THEOREMS = ["captures_depth_consecutive_samples", "readback_nth", "trigger_during_capture_ignored",
                      "pretrigger_delay", "stream_readout_exact", "stream_readout_complete",
@@ -18,7 +19,9 @@ REQUIRED_THEOREMS = ["captures_depth_consecutive_samples", "readback_nth", "trig
                      "uart_readout_total", "uart_readout_total_decoded", "uart_readout_returns_idle",
                      "uart_multi_capture", "uart_multi_capture_decoded", "idle_prefix", "track_words",
                      "spi_readout_progress", "spi_readout_covers", "sending_within", "stream_readout_total",
-                     "cdc_readout_counted", "cdc_readout_fair"]
+                     "cdc_readout_counted", "cdc_readout_fair", "uart_capture_chain", "uart_capture_chain_quiet",
+                     "uart_capture_chain_decoded", "uart_readout_duration_any", "uart_readout_within_any",
+                     "bounded_step", "uart_capture_chain_total"]
 RULE = ("cases = (sample_depth in {1,2,5,32,100} (+3,4,7,8,16,33 thorough), samples_pretrigger 0..3, domain sync/usb, "
         "three captured signals of 1+8+5 bits) x pattern: triggers sparse / held high / bursts / random incl. during "
         "capture; inputs random every cycle or a counter; captured_sample_number sweeps and random reads, also while "
@@ -61,6 +64,11 @@ ASSUMPTIONS = ["sample_depth >= 1", "captured_sample_number < sample_depth (addr
                "(noRetrigger), and the continuation after the hand-over cycle has at least "
                "10*divisor*bytes_per_sample*depth + 3 cycles (exactly readoutCycles = that - data_valid are needed: "
                "proved as an iff by a ranking function that decreases by one per cycle)",
+               "uart_capture_chain / _total: wrapper idle (WIdle) at the start, transmitter in any state satisfying C49's "
+               "invariant (chain) resp. quiescent (total); every capture of the chain starts with a trigger, its "
+               "continuation starts no new capture (noRetrigger) and ends with the wrapper FSM idle (ChainOK) - i.e. the "
+               "history is cut at the accepted triggers; uart_readout_within_any: transmitter counters within their "
+               "ranges (Bounded: holds at reset, kept by every cycle: bounded_init, bounded_step)",
                "stream_readout_total: as stream_readout_any, and the consumer offers at least 2*depth - data_valid ready "
                "cycles after the hand-over cycle (at any times); spi_readout_progress / spi_readout_covers: the hypotheses "
                "of spi_readout_bits; the only pace-setting quantity is the number of sampling edges of sck the controller "
@@ -79,7 +87,8 @@ PARTIAL = ("the IntegratedLogicAnalyzer core and all three read-out wrappers are
            "stream (cdc_readout_in_order / _complete). Duration / completeness: the UART read-out takes exactly "
            "10*divisor*bytes_per_sample*depth + 3 - data_valid cycles after the hand-over cycle (uart_readout_duration, an "
            "iff, all depths / widths / divisors, by a ranking function that decreases by one per cycle), so "
-           "uart_readout_total / _total_decoded / uart_multi_capture need no assumption on the end of the history; the "
+           "uart_readout_total / _total_decoded / uart_multi_capture / uart_capture_chain_total need no assumption on the end "
+           "of the history; the "
            "StreamILA read-out is complete once the consumer has offered 2*depth - data_valid ready cycles "
            "(stream_readout_total); the SyncSerialILA read-out has completed floor(E / bits_per_word) words after E "
            "sampling edges of the controller's sck (spi_readout_progress). What remains: (1) the clock-domain crossing is "
@@ -97,9 +106,10 @@ PARTIAL = ("the IntegratedLogicAnalyzer core and all three read-out wrappers are
            "output and the word comparison), F3 by the monitor's end-of-trace completeness check; none of them is proved "
            "for the Gray-code implementation; (2) the CDC and SPI theorems consider one capture per history (no new "
            "trigger accepted after the hand-over cycle); a whole-history multi-capture statement is written out for the "
-           "UART wrapper only (uart_multi_capture / _decoded: any number of captures, each followed by at least one "
-           "read-out time before the next trigger is accepted; a trigger that arrives earlier, while the transmitter "
-           "is still busy with the previous buffer, is covered by the general start state of uart_readout_exact only)")
+           "UART wrapper only (uart_capture_chain / uart_capture_chain_total: any number of captures at any distance, "
+           "the next trigger accepted as soon as the wrapper is idle even while the transmitter is still sending the "
+           "previous buffer; the last capture followed by 10*divisor*(bytes_per_sample*(depth+1)+1) cycles, the bound of "
+           "uart_readout_within_any for a read-out starting from any reachable transmitter state)")
 
 WIDTHS = [1, 8, 5]
 TOTAL = sum(WIDTHS)
